@@ -118,36 +118,15 @@ def worker(unit, emit):
             rec(ch + base, 'dictionary %r prepended' % ch)
         # payload edits with the check character(s) regenerated by the module's own generator (bound in
         # bindings/checkdigit.json): inputs that pass the checksum gate and reach the code behind it
-        for key, row in p['gens'].get(name, []):
-            try:
-                v = mod.validate(base)
-            except Exception:
-                break
-            if not isinstance(v, str) or (row.get('domain_re') and not re.search(row['domain_re'], v)):
-                continue
-            f = getattr(mod, key.split('#')[0].split(':')[1])
-            pl0, lo, n = slicer(row, v)
-            for i in range(len(v)):
-                if lo <= i < lo + n:
-                    continue
-                for c in p['regen_alphabet']:
-                    if c == v[i]:
-                        continue
-                    w = v[:i] + c + v[i + 1:]
-                    try:
-                        g = f(slicer(row, w)[0])
-                    except Exception:
-                        continue
-                    if isinstance(g, str) and row.get('either') and n == 1:
-                        cands = [w[:lo] + g1 + w[lo + n:] for g1 in g]
-                    elif isinstance(g, str) and len(g) == n:
-                        cands = [w[:lo] + g + w[lo + n:]]
-                    else:
-                        cands = []
-                    for cand in cands:
-                        rec(cand, 'payload %r@%d + regenerated check' % (c, i))
-                        for kw in ac.option_sets(name, mod)[1:]:     # behind the checksum gate under every option set too
-                            rec(cand, 'payload %r@%d + regenerated check' % (c, i), kw)
+        try:
+            vcanon = mod.validate(base)
+        except Exception:
+            vcanon = None
+        if isinstance(vcanon, str):
+            for cand, d in ac.regenerated(name, mod, vcanon, alphabet=p['regen_alphabet']):
+                rec(cand, d)
+                for kw in ac.option_sets(name, mod)[1:]:     # behind the checksum gate under every option set too
+                    rec(cand, d, kw)
         # options
         for kw in ac.option_sets(name, mod)[1:]:
             rec(base, 'option', kw)
